@@ -42,6 +42,7 @@ class Acc:
         self.failures = {}        # clause -> [count, smallest case, detail, phase]
         self.truncated = 0
         self.errors = []
+        self.skip_samples = {}
 
     def add_result(self, phase_name, case, r, keep_samples=3):
         from .core import case_hash, canon_json
@@ -50,6 +51,7 @@ class Acc:
         self.counters.update(r.counters)
         if r.skip:
             self.skips[r.skip] += 1
+            self.skip_samples.setdefault(r.skip, case)
         if r.nontrivial and not r.skip:
             self.nontrivial_hashes.add(case_hash(case))
             if len(self.samples) < keep_samples:
@@ -67,7 +69,8 @@ class Acc:
     def export(self):
         return dict(evaluations=self.evaluations, nontrivial_hashes=self.nontrivial_hashes,
                     labels=dict(self.labels), counters=dict(self.counters), skips=dict(self.skips),
-                    samples=self.samples, failures=self.failures, truncated=self.truncated, errors=self.errors)
+                    samples=self.samples, failures=self.failures, truncated=self.truncated, errors=self.errors,
+                    skip_samples=self.skip_samples)
 
 
 def run_shard(args):
@@ -243,6 +246,8 @@ def main(argv=None):
         if len(total.samples) < 6:
             total.samples.extend(res["samples"][:max(1, 6 - len(total.samples))][:2])
         harness_errors.extend(res["errors"])
+        for k, c in res.get("skip_samples", {}).items():
+            total.skip_samples.setdefault(k, c)
         for clause, (cnt, case, detail, phase_name, sz) in res["failures"].items():
             cur = total.failures.get(clause)
             if cur is None:
@@ -304,6 +309,7 @@ def main(argv=None):
         classes=dict(sorted(total.labels.items())),
         counters=dict(sorted(total.counters.items())),
         skipped=dict(sorted(total.skips.items())),
+        skipped_samples=total.skip_samples,
         excluded_by_finding=dict(sorted(excluded.items())),
         known_findings_reproduced=known_lines,
         replayed_regressions=acc_regress,
